@@ -64,8 +64,17 @@ def run_case(case):
     res = Res()
     init = case["init"]
     fmt = fmt_kwargs(init.get("fmt"))
+    pos_args = ()
+    if init.get("fmt_positional") and set(fmt) <= {"fg", "bg", "bold"}:
+        # the same formatting given as positional names ('red', 'on_blue', 'bold')
+        from ..cells import BG_NAME, FG_NAME
+
+        pos_args = tuple(FG_NAME[v] if k == "fg" else "on_" + BG_NAME[v] if k == "bg" else k for k, v in fmt.items() if v)
+        fmt_model, fmt = fmt, {}
+    else:
+        fmt_model = fmt
     if init["kind"] == "FSArray":
-        a, e = call(lambda: FSArray(init["h"], init["w"], **fmt))
+        a, e = call(lambda: FSArray(init["h"], init["w"], *pos_args, **fmt))
         width = init["w"]
         model = [[BLANK] * width for _ in range(init["h"])]
         if e is not None:
@@ -75,7 +84,7 @@ def run_case(case):
         vals = [row_value(s) for s in init["strings"]]
         maxlen = max([len(c) for _, c in vals], default=0)
         width = init["width"] if init.get("width") is not None else maxlen
-        a, e = call(lambda: fsarray([v for v, _ in vals], init.get("width"), **fmt))
+        a, e = call(lambda: fsarray([v for v, _ in vals], init.get("width"), *pos_args, **fmt))
         res.label("fsarray_ctor")
         if init.get("width") is not None and maxlen > init["width"]:
             res.label("fsarray_too_narrow")
@@ -89,8 +98,8 @@ def run_case(case):
             return res
         model = []
         for (v, c), spec in zip(vals, init["strings"]):
-            if "str" in spec and fmt:
-                c = apply_model(c, fmt)
+            if "str" in spec and fmt_model:
+                c = apply_model(c, fmt_model)
             model.append(c + [BLANK] * (width - len(c)))
         res.nontrivial = len(vals) >= 2
     grid, prob = observe(a)
@@ -289,18 +298,18 @@ def rowspec(draw, length):
 
 @st.composite
 def history(draw):
-    w = draw(st.one_of(st.integers(0, 7), st.integers(0, 7), st.sampled_from([12, 30])))
+    w = draw(st.one_of(st.integers(0, 7), st.integers(0, 7), st.sampled_from([12, 30, 300])))
     if draw(st.integers(0, 3)) == 0:
         n = draw(st.integers(0, 4))
         strings = [draw(rowspec(draw(st.integers(0, 7)))) for _ in range(n)]
         maxlen = max([len(s.get("str", "".join(t for t, _ in s.get("desc", [])))) for s in strings], default=0)
         width = draw(st.sampled_from([None, None, maxlen, maxlen + 1, max(maxlen - 1, 0), 7]))
-        init = {"kind": "fsarray", "strings": strings, "width": width, "fmt": draw(FMT)}
+        init = {"kind": "fsarray", "strings": strings, "width": width, "fmt": draw(FMT), "fmt_positional": draw(st.booleans())}
         w = width if width is not None else maxlen
         h = n
     else:
         h = draw(st.integers(0, 5))
-        init = {"kind": "FSArray", "h": h, "w": w, "fmt": draw(FMT)}
+        init = {"kind": "FSArray", "h": h, "w": w, "fmt": draw(FMT), "fmt_positional": draw(st.booleans())}
     ops = []
     for _ in range(draw(st.integers(0, 10))):
         k = draw(st.integers(0, 9))
